@@ -107,6 +107,11 @@ def chain (failF : List Word → List Word) : Nat → List Word → List (List W
   | 0, _ => []
   | k+1, s => s :: (if s = [] then [] else chain failF k (failF s))
 
+/-- all suffixes of a word list, longest first (the empty one last) -/
+def tails : List Word → List (List Word)
+  | [] => [[]]
+  | a :: l => (a :: l) :: tails l
+
 def maxDepth (N : List (List Word)) : Nat := N.foldl (fun m n => max m n.length) 0
 
 /-- a token as `Trie.iter` yields it -/
